@@ -108,6 +108,8 @@ QLawsEvOK(e) ==
     \* and for the NaN-skipping form on an object that holds the same values plus NaNs
     /\ NoFailureIn(e, e.seq) /\ \A s \in LawStrats(e) : e.seq[s] = e.res[s]
     /\ NoFailureIn(e, e.skip) /\ \A s \in LawStrats(e) : e.skip[s] = e.res[s]
+    \* ... and on an Option<N64> object holding the same values plus missing ones (arithmetic on the NotNone wrapper)
+    /\ Has(e, "oskip") => (NoFailureIn(e, e.oskip) /\ \A s \in LawStrats(e) : e.oskip[s] = e.res[s])
     \* selecting strategies commute with a strictly increasing relabelling (ranks are unchanged)
     /\ \A s \in {"lower", "higher", "nearest"} : e.rel[s] = e.res[s]
 
